@@ -485,6 +485,7 @@ func TestC18(t *testing.T) {
 	defer r.Finish()
 	r.SetRule("bases = 7 genuine envelope pairs A/B (1-of-1, 2-of-2, 2-of-3, OR grant over two keys, 3-of-4-shares over three keys, a key listed twice, zero-share grant) sealed per seed with PRNG payloads and contexts. Part 1 (context): every base is unsealed under PRNG / neighbouring context strings that differ from the sealing one; demanded: error Is ErrContextMismatch, no payload. Part 2 (tampering): mutation kinds are cycled (threshold, grant list, keypair indexes, ciphertext lists, grant / payload ciphertext bytes, envelope id, context hash, keypair list, attacker-made grants encrypted to a recipient with crafted shares [zero id, exact and non-canonical duplicate ids, collisions with genuine ids, bad lengths, 10k shares, garbage], wire-level bit flips / truncations / insertions / overwrites of MarshalVT, splices of A with B) with PRNG parameters; the mutant is unsealed under the right context with all recipients' keys and with a PRNG subset. Part 3: PRNG byte strings and PRNG-built envelope messages through UnmarshalVT -> UnlockEnvelope. One evaluation = one unseal of one mutant (or an undecodable mutant, trivial); non-trivial = the mutant differs from the genuine envelope and was unsealed; distinct = distinct (base, kind, parameters, key set). Oracle: no panic (decode or unseal); returned payload is empty or exactly A's payload (for splices of A and B: or exactly B's); a payload never comes with an error or without success")
 	r.Assume("splicing two genuine envelopes of the same recipients and context may reproduce B as a whole; B's payload is then not a forgery (envelopes carry no sender authentication)")
+	r.Assume("the sealed secret comes from crypto/rand inside CIRCL (BuildEnvelope's rnd is not used for Ristretto scalars): envelope bytes differ between runs of the same seed, the case list (kinds, parameters, key sets) does not; witnesses carry the mutant's wire bytes")
 	pool := g3env.NewPool(r)
 	rng := r.Rand("c18/bases")
 
